@@ -58,9 +58,10 @@ func newResponseWriter(w http.ResponseWriter) ResponseWriter {
 // WriteHeader captures the status code and calls the underlying WriteHeader
 func (rw *responseWriter) WriteHeader(statusCode int) {
 	if !rw.written {
+		// net/http panics on an invalid status code; record the status only once it was sent
+		rw.ResponseWriter.WriteHeader(statusCode)
 		rw.status = statusCode
 		rw.written = true
-		rw.ResponseWriter.WriteHeader(statusCode)
 	}
 }
 
